@@ -5,7 +5,7 @@ From SV Require Import Common.Prelude Model.Expr Model.Pipeline Model.Sweep Mode
 Import ListNotations.
 Local Open Scope string_scope.
 
-(* Facts read from inspection/builder.py and validator.py on this run (all four defects were repaired
+(* Facts read from inspection/builder.py and validator.py on this run (all five defects were repaired
    by fix commits: these are hard obligations, a regression breaks them by name). *)
 Lemma gen_translated : translation_failed = false.
 Proof. reflexivity. Qed.
@@ -16,6 +16,8 @@ Proof. reflexivity. Qed.
 Lemma gen_track_last_data : track_last_data impl = true.
 Proof. reflexivity. Qed.
 Lemma gen_origin_last : origin_last impl = true.
+Proof. reflexivity. Qed.
+Lemma gen_default_second_pass : default_second_pass impl = true.
 Proof. reflexivity. Qed.
 
 Lemma smem_In k l : smem k l = true -> In k l.
@@ -83,7 +85,7 @@ Definition nd (p : proc) (cfg : list (string * val)) (k : option string) := mkNo
 Definition use_before_create : list inode :=
   [ (nd (lib_src false) [("value", VNum 1)] None, TF); (nd (lib_mul false) [] None, TF); (nd lib_probe [] (Some "factor"), TF) ].
 Theorem C02_global_difference_refuted :
-  let v := mkVariant false true true true in
+  let v := mkVariant false true true true true in
   let '(rs, required) := inspect v use_before_create in
   valid v rs = true /\ required = [] /\
   run (map fst use_before_create) (DNone, []) = Failed 1 (Err SResolve "KeyError" "factor").
@@ -93,7 +95,7 @@ Definition type_across_ctx_node : list inode :=
   [ (nd (lib_src false) [("value", VNum 1)] None, TF); (nd lib_probe [] (Some "k"), TF);
     (nd (lib_rename false "k" "j") [] None, TAny); (nd lib_csum [] None, TF) ].
 Theorem C02_adjacent_typeflow_refuted :
-  let v := mkVariant true false true true in
+  let v := mkVariant true false true true true in
   let '(rs, required) := inspect v type_across_ctx_node in
   valid v rs = true /\ required = [] /\
   run (map fst type_across_ctx_node) (DNone, []) = Failed 3 (Err SGate "TypeError" "").
@@ -108,7 +110,7 @@ Definition delete_then_rename : list inode :=
   [ (nd (lib_src false) [("value", VNum 1)] None, TF); (nd (lib_delete false "k") [] None, TAny);
     (nd (lib_rename false "k" "j") [] None, TAny) ].
 Theorem C02_deleted_after_own_suppression_refuted :
-  let v := mkVariant true true true false in
+  let v := mkVariant true true true false true in
   let '(rs, required) := inspect v delete_then_rename in
   valid v rs = true /\ required = ["k"] /\
   run (map fst delete_then_rename) (DNone, [("k", VNum 1)]) = Failed 2 (Err SResolve "KeyError" "k").
@@ -146,27 +148,96 @@ Theorem C02_config_origin_is_config : forall n st name v c,
   resolve (n_cfg n) c (pr_defaults (n_proc n)) name = Ok v.
 Proof. intros n st name v c _ H. apply resolve_config. exact H. Qed.
 
-(* (4) reported origins versus the channel actually used.  "context" is always truthful when the key is
-   there; "default" is truthful exactly when the key is absent from the context — a key that a LATER
-   node requires (hence supplied initially) shadows it: this is the open finding F-C02-h, stated here. *)
-Theorem C02_origin_context_truthful : forall n st name j c,
+(* (4) reported origins versus the channel actually used, for the run whose initial context holds just the
+   required keys.  After the second pass of the inspector (fix c0a8174; before it, a default shadowed by a
+   key another node requires was reported as 'default': C02_origin_default_refuted_when):
+   - a parameter finally reported 'default' resolves to its default: its key is absent from the context
+     at that node (needs nodes that really delete what they declare to suppress);
+   - a parameter finally reported 'context' (earlier node, initial context, or shadowed default) resolves
+     to the context value (needs nodes that really write what they declare to create). *)
+Theorem C02_origin_default_truthful :
+  forall (p : list inode) rs required c0 d0,
+  inspect impl p = (rs, required) ->
+  forallb node_ok rs = true ->
+  Forall (fun x => honest_del (fst x)) p ->
+  (forall k, has k c0 = true -> In k required) ->          (* the initial context holds just the required keys *)
+  forall k d' c' n o r name,
+  run (firstn k (map fst p)) (d0, c0) = Done (d', c') ->
+  nth_error p k = Some (n, o) -> nth_error rs k = Some r ->
+  In (name, ODefault) (r_origins r) ->
+  exists v, lookup name (pr_defaults (n_proc n)) = Some v /\
+            resolve (n_cfg n) c' (pr_defaults (n_proc n)) name = Ok v.
+Proof.
+  intros p rs required c0 d0 HI Hok Hh Hjust k d' c' n o r name Hrun Hnth Hr Hin.
+  unfold inspect in HI. destruct (inspect_from impl 1 p init_state) as [rs0 st] eqn:E.
+  rewrite gen_order_sensitive in HI. injection HI as -> <-.
+  destruct (default_truthful_full impl p 1 init_state rs st c0 E Hok gen_default_second_pass Hh) with
+    (k := k) (i := 0) (d := d0) (c := c0) (d' := d') (c' := c') (n := n) (o := o) (r := r) (name := name)
+    as (Hc & Hcfg & Hd); auto.
+  - intros key Hk. unfold smem. apply existsb_exists. exists key. split; [apply Hjust; exact Hk|apply String.eqb_refl].
+  - apply uinv_init.
+  - destruct (has_lookup _ _ Hd) as [v Hv]. exists v. split; auto.
+    apply resolve_default; auto; apply has_false_lookup; auto.
+Qed.
+
+Theorem C02_origin_context_truthful :
+  forall (p : list inode) rs required c0 d0,
+  inspect impl p = (rs, required) ->
+  forallb node_ok rs = true ->
+  Forall (fun x => honest (fst x)) p ->
+  (forall k, In k required -> has k c0 = true) ->
+  forall k d' c' n o r name j,
+  run (firstn k (map fst p)) (d0, c0) = Done (d', c') ->
+  nth_error p k = Some (n, o) -> nth_error rs k = Some r ->
+  In (name, OContext j) (r_origins r) ->
+  exists v, lookup name c' = Some v /\ resolve (n_cfg n) c' (pr_defaults (n_proc n)) name = Ok v.
+Proof.
+  intros p rs required c0 d0 HI Hok Hh Hreq k d' c' n o r name j Hrun Hnth Hr Hin.
+  unfold inspect in HI. destruct (inspect_from impl 1 p init_state) as [rs0 st] eqn:E.
+  rewrite gen_order_sensitive in HI. injection HI as -> <-.
+  eapply (context_truthful_full impl gen_order_sensitive gen_deleted_at_entry p 1 init_state rs st c0 E Hok Hh); eauto.
+  - intros key Hk. apply Hreq. apply smem_In. exact Hk.
+  - apply inv_init.
+Qed.
+
+(* the per-classification statements (any inspector state) *)
+Theorem C02_classified_context_truthful : forall n st name j c,
   classify n st name = OContext j -> has name c = true ->
   exists v, lookup name c = Some v /\ resolve (n_cfg n) c (pr_defaults (n_proc n)) name = Ok v.
 Proof. exact origin_context_truthful. Qed.
-Theorem C02_origin_default_truthful_partial : forall n st name c,
+Theorem C02_classified_default_truthful : forall n st name c,
   classify n st name = ODefault -> has name c = false ->
   exists v, lookup name (pr_defaults (n_proc n)) = Some v /\
             resolve (n_cfg n) c (pr_defaults (n_proc n)) name = Ok v.
 Proof. exact origin_default_truthful. Qed.
+
 Definition shadowed : list inode :=
   [ (nd (lib_src false) [("value", VNum 1)] None, TF); (nd (lib_mul true) [] None, TF); (nd (lib_mul false) [] None, TF) ].
-Theorem C02_origin_default_refuted :
-  (* node 2 reports factor = default, the required keys are exactly ["factor"], and with exactly that key
-     supplied node 2 multiplies by the context value 5, not by its default 2 *)
-  (let '(rs, required) := inspect impl shadowed in
+(* without the second pass: node 2 reports factor = default, the required keys are exactly ["factor"], and
+   with exactly that key supplied node 2 multiplies by the context value 5, not by its default 2 *)
+Theorem C02_origin_default_refuted_when :
+  let v := mkVariant true true true true false in
+  (let '(rs, required) := inspect v shadowed in
    (required, map (fun r => r_origins r) rs)) = (["factor"], [[]; [("factor", ODefault)]; [("factor", OContext None)]]) /\
   run (map fst shadowed) (DNone, [("factor", VNum 5)]) = Done (DF 25, [("factor", VNum 5)]).
 Proof. vm_compute. split; reflexivity. Qed.
+(* with it (the current code): node 2 reports the initial context *)
+Example ex_shadowed_now :
+  (let '(rs, required) := inspect impl shadowed in
+   (required, map (fun r => r_origins r) rs)) = (["factor"], [[]; [("factor", OContext None)]; [("factor", OContext None)]]).
+Proof. vm_compute. reflexivity. Qed.
+(* a default that really is used stays 'default': the key is deleted before the node *)
+Definition deleted_then_default : list inode :=
+  [ (nd (lib_src false) [("value", VNum 1)] None, TF); (nd (lib_mul false) [] None, TF);
+    (nd (lib_delete false "factor") [] None, TAny); (nd (lib_mul true) [] None, TF) ].
+Example ex_deleted_then_default :
+  (let '(rs, required) := inspect impl deleted_then_default in
+   (required, map (fun r => r_origins r) rs)) =
+    (["factor"], [[]; [("factor", OContext None)]; [("factor", OContext None)]; [("factor", ODefault)]]) /\
+  run (map fst deleted_then_default) (DNone, [("factor", VNum 5)]) = Done (DF 10, []).
+Proof. vm_compute. split; reflexivity. Qed.
+Lemma honest_del_no_suppressed n : suppressed_of n = [] -> honest_del n.
+Proof. intros H d c d' c' _ k Hk. rewrite H in Hk. discriminate. Qed.
 
 (* Non-vacuity: an accepted pipeline meeting every hypothesis of (1), with honest nodes *)
 Definition good : list inode :=
@@ -201,6 +272,8 @@ Print Assumptions C02_reported_keys_are_declared.
 Print Assumptions C02_invalid_iff_unconstructible.
 Print Assumptions C02_origin_last_writer.
 Print Assumptions C02_config_origin_is_config.
+Print Assumptions C02_origin_default_truthful.
 Print Assumptions C02_origin_context_truthful.
-Print Assumptions C02_origin_default_truthful_partial.
-Print Assumptions C02_origin_default_refuted.
+Print Assumptions C02_classified_context_truthful.
+Print Assumptions C02_classified_default_truthful.
+Print Assumptions C02_origin_default_refuted_when.
